@@ -480,16 +480,9 @@ func (s Emitter) WriteExpression(output io.Writer, expression cypher.Expression)
 			return err
 		}
 
-		switch innerExpression := typedExpression.Expression.(type) {
-		case *cypher.Parenthetical:
-			if err := s.WriteExpression(output, innerExpression); err != nil {
-				return err
-			}
-
-		default:
-			if err := s.WriteExpression(output, innerExpression); err != nil {
-				return err
-			}
+		// NOT binds tighter than every connective: group a connective operand, keep a nested NOT as it is
+		if err := s.writeOperand(output, typedExpression.Expression, 4); err != nil {
+			return err
 		}
 
 	case *cypher.IDInCollection:
@@ -567,7 +560,7 @@ func (s Emitter) WriteExpression(output io.Writer, expression cypher.Expression)
 				}
 			}
 
-			if err := s.WriteExpression(output, joinedExpression); err != nil {
+			if err := s.writeOperand(output, joinedExpression, 2); err != nil {
 				return err
 			}
 		}
@@ -580,7 +573,7 @@ func (s Emitter) WriteExpression(output io.Writer, expression cypher.Expression)
 				}
 			}
 
-			if err := s.WriteExpression(output, joinedExpression); err != nil {
+			if err := s.writeOperand(output, joinedExpression, 3); err != nil {
 				return err
 			}
 		}
@@ -1249,4 +1242,54 @@ func RegularQuery(query *cypher.RegularQuery, stripLiterals bool) (string, error
 	} else {
 		return buffer.String(), nil
 	}
+}
+
+// joinedOperandPrecedence ranks the boolean connectives the way the Cypher grammar does (OR < XOR < AND < NOT); any other
+// expression binds tighter than all of them.
+func joinedOperandPrecedence(expression cypher.Expression) int {
+	precedence := 5
+
+	switch typedExpression := expression.(type) {
+	case *cypher.Disjunction:
+		precedence = 1
+	case *cypher.ExclusiveDisjunction:
+		precedence = 2
+	case *cypher.Conjunction:
+		precedence = 3
+	case *cypher.Negation:
+		return 4
+	default:
+		_ = typedExpression
+		return precedence
+	}
+
+	// A connective over a single operand is emitted as that operand alone
+	switch expressionList := expression.(cypher.ExpressionList); expressionList.Len() {
+	case 0:
+		return 5
+	case 1:
+		return joinedOperandPrecedence(expressionList.Get(0))
+	default:
+		return precedence
+	}
+}
+
+// writeOperand writes an operand of a boolean connective. The model carries grouping as explicit Parenthetical nodes, but
+// builders can nest a looser connective directly below a tighter one (query.And(a, query.Xor(b, c))); emitting that
+// operand bare would let the text re-associate (a and b xor c), so it is parenthesised here.
+func (s Emitter) writeOperand(output io.Writer, operand cypher.Expression, minimumPrecedence int) error {
+	if joinedOperandPrecedence(operand) >= minimumPrecedence {
+		return s.WriteExpression(output, operand)
+	}
+
+	if _, err := io.WriteString(output, "("); err != nil {
+		return err
+	}
+
+	if err := s.WriteExpression(output, operand); err != nil {
+		return err
+	}
+
+	_, err := io.WriteString(output, ")")
+	return err
 }
